@@ -1,6 +1,7 @@
 // ===== prelude/packer.rs — TRUSTED BASE for Slatepacker::deser_slatepack (C09): the pieces it dispatches to =====
 pub const HEADER: &'static str = "BEGINSLATEPACK.";
 pub uninterp spec fn spec_header_len() -> usize;
+pub uninterp spec fn spec_max_size() -> u64;
 // `HEADER.len()` (byte length of the constant above)
 #[verifier::external_body]
 pub fn vf_header_len() -> (r: usize) ensures r == spec_header_len() { unimplemented!() }
@@ -10,33 +11,53 @@ pub mod slatepack {
     #[verifier::external_body]
     pub fn min_size() -> (r: u64) ensures r == spec_header_len() as u64 { unimplemented!() }
     #[verifier::external_body]
-    pub fn max_size() -> (r: u64) { unimplemented!() }
+    pub fn max_size() -> (r: u64) ensures r == spec_max_size() { unimplemented!() }
 }
 pub struct Utf8Error { pub c: u8 }
 pub mod str {
     #[allow(unused_imports)] use super::*;
     #[verifier::external_body]
     pub fn from_utf8(b: &[u8]) -> (r: Result<&str, Utf8Error>)
-        ensures r matches Ok(s) ==> s.sl_view() == b@
+        ensures r matches Ok(s) ==> s.sl_view() == b@, r is Err ==> !spec_valid_utf8(b@)
     { unimplemented!() }
 }
+pub uninterp spec fn spec_valid_utf8(b: Seq<u8>) -> bool;
+// `a == b` on &str: equality of the texts' bytes
 #[verifier::external_body]
-pub fn vf_str_eq(a: &str, b: &str) -> (r: bool) { unimplemented!() }
+pub fn vf_str_eq(a: &str, b: &str) -> (r: bool) ensures r == (a.sl_view() == b.sl_view()) { unimplemented!() }
+// the header constant is (ASCII, hence valid UTF-8) text of spec_header_len() bytes
+#[verifier::external_body]
+pub proof fn axiom_header_text()
+    ensures HEADER.sl_view().len() == spec_header_len(), spec_valid_utf8(HEADER.sl_view()) { }
+// what the pieces deser_slatepack dispatches to yield (each a total function of its input; the functions are under their own
+// contracts in units slatepack_armor / slatepack_bin; serde_json and String::from_utf8 are external)
+pub uninterp spec fn spec_armor_payload(data: Seq<u8>) -> Option<Seq<u8>>;
+pub uninterp spec fn spec_bin_slatepack(b: Seq<u8>) -> Option<Slatepack>;
+pub uninterp spec fn spec_utf8_text(b: Seq<u8>) -> Option<String>;
+pub uninterp spec fn spec_json_slatepack(s: String) -> Option<Slatepack>;
 pub struct SlatepackArmor;
 impl SlatepackArmor {
     // verified in unit slatepack_armor (total: Err instead of panic; returns only checksum-verified bytes)
     #[verifier::external_body]
-    pub fn decode(data: &[u8]) -> (r: Result<Vec<u8>, Error>) { unimplemented!() }
+    pub fn decode(data: &[u8]) -> (r: Result<Vec<u8>, Error>)
+        ensures r matches Ok(v) ==> spec_armor_payload(data@) == Some(v@), r is Err ==> spec_armor_payload(data@) is None
+    { unimplemented!() }
 }
 // byte_ser::from_bytes::<SlatepackBin>: serde shim running SlatepackBin::read (verified in unit slatepack_bin)
 pub struct ByteSerError2 { pub c: u8 }
 #[verifier::external_body]
-pub fn vf_from_bytes_slatepack_bin(b: &Vec<u8>) -> (r: Result<SlatepackBin, ByteSerError2>) { unimplemented!() }
+pub fn vf_from_bytes_slatepack_bin(b: &Vec<u8>) -> (r: Result<SlatepackBin, ByteSerError2>)
+    ensures r matches Ok(s) ==> spec_bin_slatepack(b@) == Some(s.0), r is Err ==> spec_bin_slatepack(b@) is None
+{ unimplemented!() }
 pub struct FromUtf8Error { pub c: u8 }
 #[verifier::external_body]
-pub fn vf_string_from_utf8_vec(b: Vec<u8>) -> (r: Result<String, FromUtf8Error>) { unimplemented!() }
+pub fn vf_string_from_utf8_vec(b: Vec<u8>) -> (r: Result<String, FromUtf8Error>)
+    ensures r matches Ok(s) ==> spec_utf8_text(b@) == Some(s), r is Err ==> spec_utf8_text(b@) is None
+{ unimplemented!() }
 pub struct SerdeJsonError { pub c: u8 }
 #[verifier::external_body]
-pub fn vf_slatepack_from_json(s: &String) -> (r: Result<Slatepack, SerdeJsonError>) { unimplemented!() }
+pub fn vf_slatepack_from_json(s: &String) -> (r: Result<Slatepack, SerdeJsonError>)
+    ensures r matches Ok(p) ==> spec_json_slatepack(*s) == Some(p), r is Err ==> spec_json_slatepack(*s) is None
+{ unimplemented!() }
 #[verifier::external_body]
 pub fn vf_slice_to_vec_u8(s: &[u8]) -> (r: Vec<u8>) ensures r@ == s@ { unimplemented!() }
